@@ -11,7 +11,7 @@
      kf_felement_bounds                              functions::element result bounds -1000..1000  (C01/C02)
      kf_noop_route                                   functions::implies / cumulative enforce nothing (C01)
      kf_linreif_zero                                 D11 through the reified linear routes          (C01)
-     kf_gcc_len                                      unvalidated length mismatch                    (C17)
+     kf_gcc_len                                      unvalidated length mismatch                    (C17; REPAIRED: gcc_len_fixed_records)
      kf_linreif_len, table arity                     REPAIRED in /repo (e45322d, e2596cd): the refutation
                                                      lemmas below speak about `rbuild` (the model of the tree
                                                      before the repairs); linreif_len_fixed_exact /
@@ -370,6 +370,80 @@ Theorem table2d_ext_fixed_records :
   rverr (rbuild_ext_fixed [SB (SInt 0 2); SB (SInt 0 2); SCall (RTable3D [[[0%nat; 1%nat]]] [[0; 1; 2]; [1; 2]])]) = true.
 Proof. exact RoutesProofs.table2d_ext_fixed_records. Qed.
 Print Assumptions table2d_ext_fixed_records.
+
+(* ------------------------------------------------------------------------------------------------
+   The repairs routes_gcc_len (Model::gcc records InvalidConstraint for |values| <> |counts|) and routes_empty_domain_read
+   (posting methods that derive a result variable from their operands' bounds: Model::operand_bounds / empty_result_var).
+   Model: call_fix2 / rbuild_fix2 (the driver's default); call_ext_fixed / rbuild_ext_fixed is the tree before them
+   (gcc_len_refuted, empty_domain_read_panics above speak about the older models).  The former classes kf_gcc_len
+   (C17) and empty_domain_panic / empty_domain_read (C17, C01, C10) are closed. *)
+(* operands with non-empty domains: the repaired methods behave as before *)
+Theorem posting_unchanged_on_nonempty : forall r m b, reads_bounds r = true -> route_bounds (fst (rst m)) r = Some b ->
+  call_fix2 r m = call r m.
+Proof. exact RoutesProofs.call_fix2_same. Qed.
+Print Assumptions posting_unchanged_on_nonempty.
+(* an operand with an EMPTY domain: no panic (the pre-repair model panics); the result variable gets the empty domain, the
+   propagator is posted; validation answers InvalidDomain for this store and every extension of it *)
+Theorem posting_on_empty_domain_is_invalid : forall r m, reads_bounds r = true -> route_bounds (fst (rst m)) r = None ->
+  let n := rnvars (rst m) in let m' := call_fix2 r m in
+  rpanic m' = rpanic m /\ rcallerr m' = rcallerr m /\ rverr m' = rverr m /\ rpend m' = rpend m /\ ruser m' = ruser m ++ [n] /\
+  fst (rst m') = fst (rst m) ++ [[]] /\ snd (rst m') = snd (rst m) ++ [route_desc r n] /\
+  (forall s' ps, (exists t, s' = fst (rst m') ++ t) -> rvalidate s' ps = Some VInvalidDomain) /\
+  rpanic (call r m) = true.
+Proof. exact RoutesProofs.call_fix2_empty_operand. Qed.
+Print Assumptions posting_on_empty_domain_is_invalid.
+Theorem posting_never_panics : forall r m, reads_bounds r = true -> rpanic (call_fix2 r m) = rpanic m.
+Proof. exact RoutesProofs.call_fix2_no_panic. Qed.
+Print Assumptions posting_never_panics.
+Theorem gcc_len_fixed_records : forall xs vals cnts m, length vals <> length cnts ->
+  let m' := call_fix2 (RGcc xs vals cnts) m in
+  rverr m' = true /\ rpanic m' = rpanic m /\ rcallerr m' = rcallerr m /\ rst m' = rst (call (RGcc xs vals cnts) m) /\
+  forall a, route_sem (RGcc xs vals cnts) 0%nat a = false.
+Proof. exact RoutesProofs.gcc_fix2_records. Qed.
+Print Assumptions gcc_len_fixed_records.
+Theorem gcc_wellformed_unchanged : forall xs vals cnts m, length vals = length cnts ->
+  call_fix2 (RGcc xs vals cnts) m = call (RGcc xs vals cnts) m.
+Proof. exact RoutesProofs.gcc_fix2_same. Qed.
+Print Assumptions gcc_wellformed_unchanged.
+(* C01 + C03 for route programs on the repaired tree *)
+Theorem routes_model_solutions_fix2 : forall decls calls pick sols best,
+  forallb is_decl decls = true -> forallb fixed_same calls = true ->
+  let m0 := rbuild (map SB decls) in
+  calls_ok calls m0 ->
+  forall s ps, rlower (rbuild_fix2 (map SB decls ++ map SCall calls)) = RLOk s ps ->
+  rvalidate s ps = None ->
+  enumerate pick (map denote_route ps) s = SOk sols best ->
+  let means a := inst a (map decl_dom decls) /\ calls_means calls m0 a in
+  NoDup sols /\
+  (forall t, In t sols -> all_fixed t = true /\ means (asg_of t)) /\
+  (forall a, means a -> exists t, In t sols /\ inst a t).
+Proof. exact RoutesProofs.routes_model_solutions_fix2. Qed.
+Print Assumptions routes_model_solutions_fix2.
+(* the former witnesses *)
+Theorem empty_domain_fixed_invalid : exists s ps,
+  let m := rbuild_fix2 [SB (SInt 0 3); SB (SNew (CBin (EVar 0) OEq (EVal 7))); SCall (RAbs (OV 0%nat))] in
+  rpanic m = false /\ rlower m = RLOk s ps /\ s = [[]; [7]; []] /\ rvalidate s ps = Some VInvalidDomain /\
+  rpanic (rbuild_ext_fixed [SB (SInt 0 3); SB (SNew (CBin (EVar 0) OEq (EVal 7))); SCall (RAbs (OV 0%nat))]) = true.
+Proof. exact RoutesProofs.empty_domain_fixed_invalid. Qed.
+Print Assumptions empty_domain_fixed_invalid.
+Theorem empty_domain_fixed_routes :
+  forallb (fun r => let m := rbuild_fix2 [SB (SInt 3 1); SB (SInt 0 3); SCall r] in
+                    negb (rpanic m) && match rlower m with RLOk s ps => match rvalidate s ps with Some VInvalidDomain => true | _ => false end | RLPanic => false end)
+    [RAdd (OV 0%nat) (OV 1%nat); RSub (OV 1%nat) (OV 0%nat); RMul (OV 0%nat) (OC 2); RMod (OV 1%nat) (OV 0%nat); RAbs (OV 0%nat);
+     RMin [1%nat; 0%nat]; RMax [0%nat]; RArrMin [0%nat; 1%nat]; RArrMax [1%nat; 0%nat]; RSum [1%nat; 0%nat]; RSumIter [OV 0%nat; OC 1];
+     RFElement [1%nat; 0%nat] 1%nat; RCumulative [0%nat; 1%nat] [2; 2] [2; 2] 3] = true.
+Proof. exact RoutesProofs.empty_domain_fixed_routes. Qed.
+Print Assumptions empty_domain_fixed_routes.
+Theorem api_on_empty_invalid : exists s ps,
+  lower (build [SInt 3 1; SInt 0 3; SApi FAdd 0%nat 1%nat]) = LOk s ps /\ s = [[]; [0; 1; 2; 3]; []] /\ validate s ps = Some EInvalidDomain /\
+  mpanic (api_call_prefix FAdd 0%nat 1%nat (build [SInt 3 1; SInt 0 3])) = true.
+Proof. exact RoutesProofs.api_on_empty_invalid. Qed.
+Print Assumptions api_on_empty_invalid.
+Theorem gcc_len_fixed_witness :
+  let m := rbuild_fix2 [SB (SInt 0 3); SB (SInt 0 3); SCall (RGcc [0%nat; 1%nat] [1; 2] [0%nat])] in
+  rverr m = true /\ rpanic m = false /\ rverr (rbuild_ext_fixed [SB (SInt 0 3); SB (SInt 0 3); SCall (RGcc [0%nat; 1%nat] [1; 2] [0%nat])]) = false.
+Proof. exact RoutesProofs.gcc_len_fixed_witness. Qed.
+Print Assumptions gcc_len_fixed_witness.
 
 (* ---- non-vacuity: a program mixing arithmetic, global, reified and boolean routes lies inside calls_ok;
    its lowering is the dump the tie compares ---- *)
